@@ -174,7 +174,8 @@ namespace nmtools::utl
         }
         ~vector()
         {
-            if (buffer_ && (buffer_size_ > 0)) {
+            // vector(0) owns a (zero-sized) allocation too
+            if (buffer_) {
                 allocator.deallocate(buffer_);
             }
         }
